@@ -134,6 +134,8 @@ func (v VD) Go() any {
 		return buildIntMap(v)
 	case "row":
 		return rowKindNamed(v.S).build(v.M)
+	case "eroot":
+		return buildERoot(v)
 	case "mapaa", "mapas", "mapns":
 		return buildAnyMap(v)
 	case "mapis":
